@@ -4,7 +4,7 @@
 [ -z "$VERIF_NOLOCK" ] && exec env VERIF_NOLOCK=1 VERIF_SCRATCH=/tmp/verif-scratch flock -x /tmp/.verif-repo.lock "$0" "$@"
 tier=quick; case "$1" in quick|thorough) tier=$1; shift;; esac
 cd "$(dirname "$0")"
-ids=${@:-$(ls seeded | grep '^S-\|^R2-\|^R3-')}
+ids=${@:-$(ls seeded | grep '^S-\|^R[2-9]-')}
 for sid in $ids; do
   prop=$(python3 -c "import json;print(json.load(open('seeded/$sid/meta.json'))['breaks_property'])")
   git -C /repo diff --quiet || { echo "/repo dirty"; exit 2; }
